@@ -1427,6 +1427,11 @@ def str_method(I, s, name, args, kwargs):
             if I.spec_mode:
                 raise Unsupported('strip with a maybe-None chars in a spec')
             chars = NONE if I.decide(chars.none, 'strip-chars-none') else chars.val
+        cs_ = z3.simplify(s)
+        if z3.is_string_value(cs_) and (isinstance(chars, VNone) or is_concrete(chars)):
+            txt = decode_z3_string(cs_.as_string())
+            ch = None if isinstance(chars, VNone) else concretise(chars)
+            return VStr(getattr(txt, name)(ch))
         key = 'ws'
         if isinstance(chars, VNone):
             cre = ws_re()
